@@ -131,10 +131,17 @@ def item_put_fidelity(ctx, n):
                ("bad-rrule", "BEGIN:VEVENT\r\nUID:odd3\r\nDTSTAMP:20130101T000000Z\r\nDTSTART:20130901T180000Z\r\nRRULE:FREQ=NEVER\r\n"
                              "SUMMARY:o\r\nEND:VEVENT\r\n"),
                ("journal-no-dtstart", "BEGIN:VJOURNAL\r\nUID:odd4\r\nDTSTAMP:20130101T000000Z\r\nSUMMARY:o\r\nEND:VJOURNAL\r\n")]
+        odd += [("card-without-fn-and-n", "BEGIN:VCARD\r\nVERSION:3.0\r\nUID:odd5\r\nNICKNAME:x\r\nEND:VCARD\r\n"),
+                ("card-without-version", "BEGIN:VCARD\r\nUID:odd6\r\nFN:x\r\nN:x;;;;\r\nEND:VCARD\r\n"),
+                ("event-with-dtend-and-duration", "BEGIN:VEVENT\r\nUID:odd7\r\nDTSTAMP:20130101T000000Z\r\nDTSTART:20130901T180000Z\r\n"
+                                                  "DTEND:20130901T190000Z\r\nDURATION:PT1H\r\nSUMMARY:o\r\nEND:VEVENT\r\n"),
+                ("todo-with-due-and-duration", "BEGIN:VTODO\r\nUID:odd8\r\nDTSTAMP:20130101T000000Z\r\nDTSTART:20130901T180000Z\r\n"
+                                               "DUE:20130902T180000Z\r\nDURATION:PT1H\r\nSUMMARY:o\r\nEND:VTODO\r\n")]
         for oi, (what, comp) in enumerate(odd):
-            body = "BEGIN:VCALENDAR\r\nPRODID:-//v//EN\r\nVERSION:2.0\r\n" + comp + "END:VCALENDAR\r\n"
+            is_card = comp.startswith("BEGIN:VCARD")
+            body = comp if is_card else "BEGIN:VCALENDAR\r\nPRODID:-//v//EN\r\nVERSION:2.0\r\n" + comp + "END:VCALENDAR\r\n"
             before = impl.tree_dump(srv.folder, skip_cache=True)
-            st, _, _ = srv.put("/u/c/odd%d.ics" % oi, body, login="u:")
+            st, _, _ = srv.put(("/u/a/odd%d.vcf" if is_card else "/u/c/odd%d.ics") % oi, body, login="u:")
             ctx.case(("itemput-odd", what), nontrivial=True)
             ctx.count("odd-item-put:%s" % st)
             if st >= 400 and impl.tree_dump(srv.folder, skip_cache=True) != before:
@@ -184,6 +191,25 @@ def item_put_fidelity(ctx, n):
                 if len({c[1] for c in cs}) > 1:
                     ctx.violation("item %s%s holds components with different UIDs %r after PUT %s (%s)" % (
                         coll, fn_, sorted({str(c[1]) for c in cs}), name, st), dict(path=coll + name, body=body, stored=repr(cs)))
+                    return
+        # every stored object is valid for its type by the component library's own validation (independent of the server's
+        # sanitiser: the verifier skips what it can not load)
+        import vobject as _vobject
+        for coll in ("/u/c/", "/u/a/"):
+            d_ = os.path.join(srv.folder, "collection-root", *coll.strip("/").split("/"))
+            for n_ in sorted(os.listdir(d_)):
+                if n_.startswith(".") or n_.endswith("~") or not os.path.isfile(os.path.join(d_, n_)):
+                    continue
+                text_ = open(os.path.join(d_, n_), newline="", encoding="utf-8").read()
+                try:
+                    obj_ = _vobject.readOne(text_)
+                    valid_ = bool(obj_.validate(raiseException=False)) and all(bool(c_.validate(raiseException=False)) for c_ in obj_.getChildren()
+                                                                                  if hasattr(c_, "behavior") and getattr(c_, "name", "") in ("VEVENT", "VTODO", "VJOURNAL"))
+                except Exception as e:  # noqa
+                    valid_ = "raised %r" % (e,)
+                ctx.count("stored-object-validated")
+                if valid_ is not True:
+                    ctx.violation("the stored object %s%s is not valid for its type (%r)" % (coll, n_, valid_), dict(path=coll + n_, stored=text_[:1500]))
                     return
         # the offline verifier on a cold cache (it only re-parses items on a cache miss)
         import shutil
